@@ -95,10 +95,11 @@ Theorem C13_dominator_worklist_correct :
     (forall n, In n nodes -> incl (succs n) nodes) ->
     (forall n p, In n nodes -> In p nodes -> (In p (preds n) <-> In n (succs p))) ->
     (forall n, (length (succs n) <= B)%nat) ->
+    forall ents, (forall n, In n ents <-> In n nodes /\ preds n = []) ->     (* the entry points, in any order *)
     forall fuel,
-      entries nodes preds <> [] ->
-      (mu nodes B (init_D nodes (entries nodes preds)) (init_stk nodes (entries nodes preds)) < fuel)%nat ->
-      exists D log, find_dominators nodes (entries nodes preds) preds succs fuel = WOk D log /\
+      ents <> [] ->
+      (mu nodes B (init_D nodes ents) (init_stk nodes ents) < fuel)%nat ->
+      exists D log, find_dominators nodes ents preds succs fuel = WOk D log /\
         forall m, In m nodes -> StronglySorted Z.lt (dget D m) /\
                                 forall a, In a (dget D m) <-> (In a nodes /\ Dominates nodes succs preds a m).
 Proof. exact find_dominators_correct. Qed.
@@ -109,7 +110,7 @@ Example C13_dominator_worklist_example :
   let nodes := [1; 2; 3]%Z in
   let preds := fun n => if Z.eqb n 2 then [1; 3]%Z else if Z.eqb n 3 then [2]%Z else [] in
   let succs := fun n => if Z.eqb n 1 then [2]%Z else if Z.eqb n 2 then [3]%Z else if Z.eqb n 3 then [2]%Z else [] in
-  find_dominators nodes (entries nodes preds) preds succs 40 =
+  find_dominators nodes [1]%Z preds succs 40 =
     WOk [(1, [1]); (2, [1; 2]); (3, [1; 2; 3])]%Z [(3, false); (2, true); (3, false)]%Z.
 Proof. vm_compute. reflexivity. Qed.
 
